@@ -9,12 +9,14 @@ import (
 )
 
 // applyIntCallback applies intCallback to x. The negation and the absolute
-// value of the smallest int64 do not fit in an int64, so for that one value it
-// applies floatCallback to its floating point value instead of letting the
-// integer operation wrap around.
+// value of the smallest int64 do not fit in an int64, so when floatCallback
+// changes that one value it returns the floating point result instead of
+// letting the integer operation wrap around.
 func applyIntCallback(x int64, intCallback intCallback, floatCallback floatCallback) any {
 	if x == math.MinInt64 {
-		return floatCallback(float64(x))
+		if f := floatCallback(float64(x)); f != float64(x) {
+			return f
+		}
 	}
 	return intCallback(x)
 }
